@@ -387,7 +387,12 @@ type world struct {
 	lastLeader   int
 	amnesia      bool // see joinOp
 	hungCalls    int  // bounded calls that did not come back
-	wedgedSeen   bool // see wedged()
+	// missedRemoval[x]: members that were down when x's removal was committed and
+	// may hold a configuration that lists x until they have caught up; reuseRisk: x
+	// was started afresh under the same identity while that set was not empty
+	missedRemoval map[int]map[int]bool
+	reuseRisk     bool
+	wedgedSeen    bool // see wedged()
 }
 
 // wop is one write of the history: the model is a register per CID under
@@ -1149,6 +1154,13 @@ func (w *world) joinOp(s Step) {
 			w.net.Kill(s.Slot)
 		}
 		w.net.Uncut(s.Slot)
+		if len(w.missedRemoval[s.Slot]) > 0 {
+			// The identity that left comes back, with an empty log, while a member that
+			// was down when it left may still run on a configuration that lists it as
+			// a voter: see the known finding on C17/peersets_disagree.
+			w.reuseRisk = true
+			w.run.Probe("identity_reused_while_a_member_missed_its_removal")
+		}
 		tgt = w.start(s.Slot, base, true, nil)
 		for j := 0; j < w.slots; j++ {
 			if j != s.Slot && w.cur[j] != nil && w.cur[j].alive {
@@ -1366,6 +1378,7 @@ func (w *world) removeOp(s Step) {
 			run.Violate("C17/last_peer_removed", "", "PeerRemove of p%d, the only member, succeeded", s.Slot)
 		}
 		w.member[s.Slot] = no
+		w.noteRemoved(s.Slot)
 		if isLeader {
 			run.Probe("leader_removed")
 		}
@@ -1661,6 +1674,7 @@ func (w *world) stopOp(s Step) {
 		case known && !listed && wiped:
 			w.run.Probe("left_peer_data_cleaned")
 			w.member[s.Slot] = no
+			w.noteRemoved(s.Slot)
 		case known && !listed && !wiped:
 			// Leaving is one call whose outcome the peer may not learn (the answer can
 			// time out while the removal goes through): it then keeps its data, finds
@@ -1668,6 +1682,7 @@ func (w *world) stopOp(s Step) {
 			// harness cannot see how the call ended: not judged.
 			w.run.Probe("left_but_data_kept_until_next_start")
 			w.member[s.Slot] = no
+			w.noteRemoved(s.Slot)
 		case known && listed && wiped:
 			// still a voter for the others, and it will come back without its log:
 			// such a peer can elect a leader that lacks committed entries (an
@@ -1770,6 +1785,21 @@ func (w *world) startOp(s Step) {
 	}
 }
 
+// noteRemoved records which members were down at the moment x left the peerset.
+func (w *world) noteRemoved(x int) {
+	if w.missedRemoval == nil {
+		w.missedRemoval = map[int]map[int]bool{}
+	}
+	for j := 0; j < w.slots; j++ {
+		if j != x && w.member[j] != no && w.up(j) == nil {
+			if w.missedRemoval[x] == nil {
+				w.missedRemoval[x] = map[int]bool{}
+			}
+			w.missedRemoval[x][j] = true
+		}
+	}
+}
+
 // settle lets a membership change spread and then checks agreement, when
 // nothing stands in the way of it.
 func (w *world) settle(what string) {
@@ -1811,7 +1841,11 @@ func (w *world) agreement(what string, bound time.Duration) {
 		w.run.Probe("not_judged_raft_wedged")
 		return
 	}
-	w.run.Violate("C17/peersets_disagree", "", "%s, %v after the last change with every link up: %s", what, bound, last)
+	sig := ""
+	if w.reuseRisk {
+		sig = "identity re-added while a member that was down during its removal may still list it"
+	}
+	w.run.Violate("C17/peersets_disagree", sig, "%s, %v after the last change with every link up: %s", what, bound, last)
 }
 
 func (w *world) agreementOnce() string {
